@@ -67,6 +67,7 @@ type Contract struct {
 	Assumes  []*Clause // assumptions local to this function (listed in evidence)
 	Terminates bool
 	ReadsHeap  bool
+	CallAssumes map[string][]*Clause // callee name -> assumptions instantiated just before that call (listed in evidence)
 }
 
 type SpecFunc struct {
@@ -165,7 +166,7 @@ func (cs *ContractSet) parseFile(path string) error {
 	topKw := map[string]bool{"func": true, "spec": true, "ghost": true, "axiom": true, "funcspec": true, "lib": true}
 	clKw := map[string]bool{"requires": true, "ensures": true, "invariant": true, "decreases": true, "modifies": true,
 		"canary": true, "props": true, "inline": true, "trusted": true, "loop": true, "call": true, "implements": true,
-		"unroll": true, "overflow": true, "nooverflow": true, "pure": true, "free": true, "assume": true, "terminates": true}
+		"unroll": true, "overflow": true, "nooverflow": true, "pure": true, "free": true, "assume": true, "terminates": true, "callassume": true}
 	for _, r := range raws {
 		t := strings.TrimSpace(r.text)
 		if t == "" {
@@ -258,6 +259,21 @@ func (cs *ContractSet) parseFile(path string) error {
 						}
 						c.Free = append(c.Free, ParamDecl{f[0], strings.Join(f[1:], "")})
 					}
+				case "callassume":
+					// callassume scan: <expr over the callee's parameter names and this function's parameters>
+					parts := strings.SplitN(rest, ":", 2)
+					if len(parts) != 2 {
+						return fmt.Errorf("%s:%d: bad callassume clause", cl.file, cl.line)
+					}
+					e, err := parseSpec(strings.TrimSpace(parts[1]))
+					if err != nil {
+						return fmt.Errorf("%s:%d: %v", cl.file, cl.line, err)
+					}
+					if c.CallAssumes == nil {
+						c.CallAssumes = map[string][]*Clause{}
+					}
+					nm := strings.TrimSpace(parts[0])
+					c.CallAssumes[nm] = append(c.CallAssumes[nm], &Clause{Kind: "callassume", Text: strings.TrimSpace(parts[1]), Expr: e, File: cl.file, Line: cl.line})
 				case "call":
 					// call name: spec X
 					parts := strings.SplitN(rest, ":", 2)
